@@ -2,7 +2,7 @@ import Restli.Lib.Basic
 import Restli.Gen.Tables
 /-! `restlicodec.PathSpec`: `NewPathSpec` (a trie of slash-separated directives) and
 `genericMatches`, transliterated — including the stale `p0` after a `$set`/`$delete` segment is
-skipped and the loss of a directive that is a proper prefix of another. -/
+skipped. -/
 namespace Restli.Codec
 
 inductive PathSpec where
@@ -14,18 +14,27 @@ def PathSpec.children : PathSpec → List (Bytes × PathSpec)
 
 def PathSpec.empty : PathSpec := .node []
 
-def setKey : Bytes := strBytes "$set"
-def deleteKey : Bytes := strBytes "$delete"
+def lookupSpec0 (cs : List (Bytes × PathSpec)) (s : Bytes) : Option PathSpec := List.lookup s cs
 
-/-- insert one directive (already split into segments) -/
-def PathSpec.insertChild (seg : Bytes) (f : PathSpec → PathSpec) :
-    List (Bytes × PathSpec) → List (Bytes × PathSpec)
-  | [] => [(seg, f .empty)]
-  | (k, sub) :: rest => if k == seg then (k, f sub) :: rest else (k, sub) :: PathSpec.insertChild seg f rest
+/-- "$set" and "$delete" -/
+def setKey : Bytes := [36, 115, 101, 116]
+def deleteKey : Bytes := [36, 100, 101, 108, 101, 116, 101]
 
+/-- insert one directive (already split into segments), as `NewPathSpec` does after the repair:
+walking down, an existing leaf means a shorter directive already covers the subtree (stop); the
+last segment becomes a leaf, superseding longer directives beneath it. -/
 def PathSpec.insert : List Bytes → PathSpec → PathSpec
   | [], p => p
-  | seg :: rest, .node cs => .node (PathSpec.insertChild seg (PathSpec.insert rest) cs)
+  | [seg], .node cs =>
+    match lookupSpec0 cs seg with
+    | some (.node []) => .node cs
+    | some _ => .node (cs.map (fun e => if e.1 == seg then (seg, PathSpec.node []) else e))
+    | none => .node (cs ++ [(seg, .node [])])
+  | seg :: s2 :: rest, .node cs =>
+    match lookupSpec0 cs seg with
+    | some (.node []) => .node cs
+    | some sub => .node (cs.map (fun e => if e.1 == seg then (seg, PathSpec.insert (s2 :: rest) sub) else e))
+    | none => .node (cs ++ [(seg, PathSpec.insert (s2 :: rest) (.node []))])
 
 /-- `strings.Split(strings.TrimPrefix(s, "/"), "/")` -/
 def splitSlash (s : Bytes) : List Bytes :=
